@@ -324,10 +324,37 @@ def case_variants(what):
                                         "%s: volume" % lab, unit="lagrange:volume")
         elif what == "dual":
             # constant / lower-order dual fields interpolate their own space
-            for fam in ("quad", "hexahedron", "quad9", "hexahedron27", "triangle6", "tetra10", "triangleMINI"):
-                mesh, _ = gen.build_mesh(fam, "distorted" if not fam.startswith(("tri", "tet")) else "affine", rng)
-                reg = gen.make_region(fam, mesh)
+            parents = [(fam, None) for fam in ("quad", "hexahedron", "quad8", "quad9", "hexahedron20", "hexahedron27", "triangle6", "tetra10",
+                                               "triangleMINI", "tetraMINI")]
+            parents += [("lagrange", (order, dim)) for dim in (2, 3) for order in (1, 2, 3)]
+            for fam, lag in parents:
+                if lag is None:
+                    mesh, _ = gen.build_mesh(fam, "distorted" if not fam.startswith(("tri", "tet")) else "affine", rng)
+                    reg = gen.make_region(fam, mesh)
+                else:
+                    mesh = gen.lagrange_mesh(*lag)
+                    reg = fem.RegionLagrange(mesh, order=lag[0], dim=lag[1])
+                    fam = "lagrange[order=%d,dim=%d]" % lag
                 fd = fem.FieldDual(reg, dim=1, values=0.0)
+                # independent oracle: a constant dual field is reproduced at every quadrature point of the parent; for
+                # vertex-based duals (the dual nodes are the parent's first nodes) a linear function is reproduced as well
+                cval = float(rng.uniform(1, 3))
+                fd.values[:] = cval
+                gotc = fd.interpolate()[0]
+                run.compare("field.dual", "template=%s clause=dual-constant" % fam, maxabs(gotc - cval), 1e-13,
+                            "a constant dual field is not reproduced at the quadrature points", unit="dual:constant", config=(fam, "dual-constant"))
+                npc = fd.region.mesh.cells.shape[1]
+                if lag is None and npc > 1:
+                    a, b0 = rng.uniform(-1, 1, mesh.dim), float(rng.uniform(-1, 1))
+                    Xd = mesh.points[mesh.cells[:, :npc]]
+                    fd.values[fd.region.mesh.cells.ravel(), 0] = (Xd @ a + b0).ravel()
+                    nn = gen.FAMILIES[fam].get("nodes", mesh.cells.shape[1])
+                    Xq = np.einsum("caI,aqc->Iqc", mesh.points[mesh.cells[:, :npc]], np.broadcast_to(fd.region.h, fd.region.h.shape[:2] + (mesh.ncells,)))
+                    # the dual shape functions themselves are judged by the constant clause and by C04; the geometry of a
+                    # vertex-based dual is the (sub-parametric) interpolation of the vertices
+                    refl = np.einsum("I,Iqc->qc", a, Xq) + b0
+                    run.compare("field.dual", "template=%s clause=dual-linear" % fam, maxabs(fd.interpolate()[0] - refl), 1e-12,
+                                "a linear function sampled at the dual nodes is not reproduced", unit="dual:linear", config=(fam, "dual-linear"))
                 dreg = fd.region
                 vals = rng.standard_normal(fd.values.shape)
                 fd.values[:] = vals
@@ -393,7 +420,7 @@ def cases(tier, seed):
 def _required():
     req = ["structural:partition", "structural:zero-sum-gradient", "structural:unit-position-gradient",
            "structural:zero-position-hessian", "float32", "uniform", "lagrange:interpolate", "lagrange:grad", "lagrange:exact-integration",
-           "dual:interpolate", "planestrain:grad", "axisymmetric:grad", "planestrain:hess", "family-equality"]
+           "dual:interpolate", "dual:constant", "dual:linear", "planestrain:grad", "axisymmetric:grad", "planestrain:hess", "family-equality"]
     for fam in gen.FAMILIES:
         req += [fam + ":dV>0", fam + ":volume", fam + ":rigid-motion", fam + ":interpolate", fam + ":grad", fam + ":warning"]
         if fam in HESS_FAMILIES:
